@@ -146,10 +146,41 @@ type replayRec struct {
 	Where      string    `json:"where,omitempty"`
 	Decisions  []string  `json:"decisions,omitempty"`
 	Cmd        string    `json:"cmd"`
+	Tier       string    `json:"tier,omitempty"`
 	nativeFailed bool
 }
 
 var currentTier = "quick"
+
+// makeModelReplay: re-execution of a counterexample in the engine with the
+// vector pinned, for harnesses whose environment cannot be injected natively.
+func makeModelReplay(ld *Loaded, dirPkg map[string]string, hs []harnessRef) func(rr *replayRec) (bool, string) {
+	return func(rr *replayRec) (bool, string) {
+		var h harnessRef
+		for _, x := range hs {
+			if x.fn == rr.Harness {
+				h = x
+			}
+		}
+		if !h.model && !(h.modelFallback && rr.nativeFailed) {
+			return false, ""
+		}
+		b := defaultBounds()
+		b.WallS = 120
+		w := NewWorld(ld.pi, b)
+		w.forced = rr.Vector
+		if w.forced == nil {
+			w.forced = []ndValue{}
+		}
+		res := w.Explore(Harness{Pkg: dirPkg[h.dir], Func: h.fn}, map[string]bool{})
+		for _, f := range res.Failures {
+			if f.Obligation == rr.Obligation {
+				return true, "MODEL-REPLAY reproduced " + rr.Obligation
+			}
+		}
+		return false, fmt.Sprintf("MODEL-REPLAY did not reproduce %s (%d paths)", rr.Obligation, res.Paths)
+	}
+}
 
 func cmdCheck(id, tier string) int {
 	t0 := time.Now()
@@ -256,32 +287,9 @@ func cmdCheck(id, tier string) int {
 	knownSeen := map[string]bool{}
 	knownFail := map[string][]string{}
 	replayed := 0
+	reproduced := map[string]int{}
 	rp := newReplayer(m, id)
-	rp.modelReplay = func(rr *replayRec) (bool, string) {
-		var h harnessRef
-		for _, x := range hs {
-			if x.fn == rr.Harness {
-				h = x
-			}
-		}
-		if !h.model && !(h.modelFallback && rr.nativeFailed) {
-			return false, ""
-		}
-		b := defaultBounds()
-		b.WallS = 120
-		w := NewWorld(ld.pi, b)
-		w.forced = rr.Vector
-		if w.forced == nil {
-			w.forced = []ndValue{}
-		}
-		res := w.Explore(Harness{Pkg: dirPkg[h.dir], Func: h.fn}, map[string]bool{})
-		for _, f := range res.Failures {
-			if f.Obligation == rr.Obligation {
-				return true, "MODEL-REPLAY reproduced " + rr.Obligation
-			}
-		}
-		return false, fmt.Sprintf("MODEL-REPLAY did not reproduce %s (%d paths)", rr.Obligation, res.Paths)
-	}
+	rp.modelReplay = makeModelReplay(ld, dirPkg, hs)
 	os.RemoveAll(filepath.Join(verifDir, "replays", id))
 	nrep := 0
 	for i, res := range results {
@@ -305,7 +313,7 @@ func cmdCheck(id, tier string) int {
 			mk := func(finding string, vec []ndValue) (string, *replayRec) {
 				nrep++
 				rr := &replayRec{Property: id, Harness: h.fn, PkgDir: h.dir, Obligation: f.Obligation, Kind: f.Kind, Msg: f.Msg,
-					Finding: finding, Vector: vec, Where: f.Where, Decisions: f.Decisions}
+					Finding: finding, Vector: vec, Where: f.Where, Decisions: f.Decisions, Tier: tier}
 				name := fmt.Sprintf("%s-%d.json", sanitize(f.Obligation), nrep)
 				path := filepath.Join(verifDir, "replays", id, name)
 				rr.Cmd = "/verif/bin/gosym replay " + path
@@ -314,9 +322,17 @@ func cmdCheck(id, tier string) int {
 				os.WriteFile(path, b, 0o644)
 				return path, rr
 			}
-			if f.Unexplain {
+			if f.Unexplain && reproduced[f.Obligation] >= 2 {
+				// two reproduced counterexamples of this obligation are already reported: further
+				// failing paths of the same obligation are written out but not replayed again
+				path, _ := mk("", f.Vector)
+				fmt.Printf("  (also failing, not replayed: %s)\n", path)
+			} else if f.Unexplain {
 				path, rr := mk("", f.Vector)
 				ok, out := rp.run(rr, path)
+				if ok {
+					reproduced[f.Obligation]++
+				}
 				replayed++
 				if ok {
 					fmt.Printf("VIOLATION property=%s replay=%s\n", id, path)
